@@ -291,7 +291,9 @@ theorem resize_grow_tie (N : Nat) (r : ReadinessVec) (b : World) (len : Nat) (h 
               parent_waker := r.roleParent }, ?_, Wf.mk2 rfl ?_ rfl, ?_⟩
     · unfold ReadinessVec.resize
       unroles
-      simp [hcmp, hl, hgs, usub, uadd, hlen]
+      have hnlt : ¬ len < N := by omega
+      have hgt : len > N := hlt
+      simp [hcmp, hl, hgs, usub, uadd, hlen, hlt, hnlt, hgt]
     · show r.roleCount + (len - N) = countRange F 0 len
       rw [hcnt, hc]
     · unroles
@@ -340,7 +342,8 @@ theorem resize_shrink_wf (N : Nat) (r : ReadinessVec) (len : Nat) (h : Wf N r) (
           ?_, Wf.mk2 rfl ?_ rfl, hget, rfl⟩
   · unfold ReadinessVec.resize
     unroles
-    simp [hl, hcmp, hcf, usub, hge]
+    have hnl : ¬ N < len := by omega
+    simp [hl, hcmp, hcf, usub, hge, hlen, hnl]
   · show r.roleCount - countRange r.roleFlags.get len (N - len)
         = countRange (BitSet.truncate r.roleFlags len).get 0 len
     rw [countRange_congr _ r.roleFlags.get 0 len (fun i _ hi => hget i (by omega))]
